@@ -160,8 +160,11 @@ pub struct FatVolume {
     /// The block the second FAT starts in. Relative to start of partition (so add
     /// `self.lba_offset` before passing to volume manager)
     pub(crate) second_fat_start: Option<BlockCount>,
-    /// Expected number of free clusters
-    pub(crate) free_clusters_count: Option<u32>,
+    /// Expected number of free clusters: the count found in the information
+    /// sector plus the clusters freed, minus the clusters allocated, since then.
+    /// That count may be stale, so the running value is allowed to leave the
+    /// range of a `u32`; it is clamped only when it is stored.
+    pub(crate) free_clusters_count: Option<i64>,
     /// Number of the next expected free cluster
     pub(crate) next_free_cluster: Option<ClusterId>,
     /// Total number of clusters
@@ -199,6 +202,7 @@ impl FatVolume {
                 let mut record = [0u8; 8];
                 record.copy_from_slice(&block[488..496]);
                 if let Some(count) = self.free_clusters_count {
+                    let count = count.clamp(0, 0xFFFF_FFFE) as u32;
                     record[0..4].copy_from_slice(&count.to_le_bytes());
                 }
                 record[4..8].copy_from_slice(&next_free.to_le_bytes());
@@ -1234,8 +1238,7 @@ impl FatVolume {
         debug!("Next free cluster is {:?}", self.next_free_cluster);
         // Record that we've allocated a cluster
         if let Some(ref mut number_free_cluster) = self.free_clusters_count {
-            // the stored count is only a hint and may be stale (even zero)
-            *number_free_cluster = number_free_cluster.saturating_sub(1);
+            *number_free_cluster -= 1;
         };
         debug!("All done, returning {:?}", new_cluster);
         Ok(new_cluster)
@@ -1279,14 +1282,14 @@ impl FatVolume {
                     self.update_fat(block_cache, next, ClusterId::EMPTY)?;
                     // the last cluster of the chain has been freed as well
                     if let Some(ref mut number_free_cluster) = self.free_clusters_count {
-                        *number_free_cluster = number_free_cluster.saturating_add(1);
+                        *number_free_cluster += 1;
                     };
                     break;
                 }
                 Err(e) => return Err(e),
             }
             if let Some(ref mut number_free_cluster) = self.free_clusters_count {
-                *number_free_cluster = number_free_cluster.saturating_add(1);
+                *number_free_cluster += 1;
             };
         }
         Ok(())
@@ -1463,7 +1466,7 @@ impl FatVolume {
             _ => self.next_free_cluster = Some(cluster),
         }
         if let Some(ref mut number_free_cluster) = self.free_clusters_count {
-            *number_free_cluster = number_free_cluster.saturating_add(1);
+            *number_free_cluster += 1;
         }
         Ok(())
     }
@@ -1560,7 +1563,7 @@ where
                 .map_err(Error::DeviceError)?;
             let info_sector =
                 InfoSector::create_from_bytes(info_block).map_err(Error::FormatError)?;
-            volume.free_clusters_count = info_sector.free_clusters_count();
+            volume.free_clusters_count = info_sector.free_clusters_count().map(i64::from);
             volume.next_free_cluster = info_sector.next_free_cluster();
 
             Ok(VolumeType::Fat(volume))
